@@ -252,6 +252,8 @@ func SessionNext(rc *RunCtx) *Step {
 			return &Step{Op: "sleep", Dur: durs[r.IntN(len(durs))]}
 		case "restart":
 			return &Step{Op: "restart"}
+		case "revision":
+			return &Step{Op: "revision", Flag: "create"}
 		case "cache_purge":
 			return &Step{Op: "cache", Flag: "purge"}
 		case "rebuild":
